@@ -115,7 +115,7 @@ def run(prop, tier):
     vals = json.load(open(trace + ".values.json"))
     os.remove(trace + ".values.json")
     res.cov["recorded_map_value_checks"] = vals["checks"]
-    want_api = {"C02": "diff", "C03": "perf"}.get(prop)
+    want_api = {"C02": "diff", "C03": "perf", "C14": "count"}.get(prop)
     for rec in vals["records"]:
         if rec["api"] == want_api or (rec["what"] in ("panic", "machinery") and prop == "C02"):
             res.violation("recorded map: %s %s at prefix %s: %s: expected %s observed %s" % (rec["api"], rec["what"], rec.get("i"), rec["label"], str(rec.get("expected"))[:300], str(rec.get("observed"))[:300]),
